@@ -1435,6 +1435,45 @@ def _worker(job):
                 out["timeouts"].append({"group": "squash-boundary", "grammar": gtext, "passes": list(PASS_NAMES)})
             finally:
                 signal.alarm(0)
+    if prop in ("C02", "C03"):
+        # one-character literals with a meaning inside a regex class x every printable ASCII character (sharded)
+        nshc = do_bundled[1] if do_bundled else NCPU
+        ascii_in = [chr(c) for c in range(0x20, 0x7F)] + ["+-", "-/", "a]", "^^", "\\\\", "[a", ""]
+        for j_, rules in enumerate(G.class_syntax_grid()):
+            if j_ % nshc != shard % nshc:
+                continue
+            gtext = G.show_grammar(rules)
+            signal.alarm(120)
+            try:
+                eval_grammar(prop, rng, "class-syntax", gtext, rules, list(PASS_NAMES), [("r", t, 0) for t in ascii_in], out)
+                out["stats"]["class_syntax_grammars"] += 1
+            except Timeout:
+                out["timeouts"].append({"group": "class-syntax", "grammar": gtext, "passes": list(PASS_NAMES)})
+            finally:
+                signal.alarm(0)
+    if prop in ("C02", "C03", "C04"):
+        # nested all-literal choices (parenthesised, behind a silent rule or NEWLINE, under ? * +) x trivia x pass orders
+        # x every input over the characters involved up to length 3; all cells in the thorough tier, a sample per shard otherwise
+        grid = G.squash_nested_grid(("none",) if prop == "C03" else ("cm", "ws") if prop == "C04" else ("none", "cm", "ws"))
+        nshn = do_bundled[1] if do_bundled else NCPU
+        mine_n = [c for j_, c in enumerate(grid) if j_ % nshn == shard % nshn]
+        if tier != "thorough":
+            mine_n = rng.sample(mine_n, min(len(mine_n), 9))
+        for rules, passes_n in mine_n:
+            if not G.well_formed(rules):
+                continue
+            gtext = G.show_grammar_min(rules)        # no parentheses but the written ones: a silent rule's body is a bare choice
+            chars_n = "ab" + ("c" if '"c"' in gtext else "") + ("1" if '"1"' in gtext else "") + ("#" if "COMMENT" in rules else "") + \
+                (" " if "WHITESPACE" in rules else "") + ("\n" if "NEWLINE" in gtext else "")
+            signal.alarm(120)
+            try:
+                eval_grammar(prop, rng, "squash-nested", gtext, rules, passes_n or list(PASS_NAMES),
+                             [("r", t, 0) for t in small_inputs(chars_n[:5], 3) + ["ab#ab", "a#b#c", "ab ab", "a b c", "ab#", "#ab"]], out)
+                out["stats"]["squash_nested_grammars"] += 1
+            except Timeout:
+                out["timeouts"].append({"group": "squash-nested", "grammar": gtext, "passes": passes_n or list(PASS_NAMES)})
+            finally:
+                signal.alarm(0)
     if prop in ("C02", "C16", "C04", "C03") or (tier == "thorough" and prop == "C01"):
         # the shapes the skip and squash passes rewrite x every short input over a small alphabet
         for kind in ("skip", "squash"):
@@ -1460,7 +1499,7 @@ def _worker(job):
                             for x in e:
                                 lit_chars(x, acc)
                         return acc
-                    chars = sorted(lit_chars(rules["r"][1], set()))
+                    chars = sorted(lit_chars([b_ for _m, b_ in rules.values()], set()) - {"\t"})
                     # every mentioned character and its two neighbours in code-point order, one at a time (membership) …
                     near = sorted({chr(ord(c) + d) for c in chars for d in (-1, 0, 1) if 0 < ord(c) + d < 0x110000})
                     if len(chars) > 6:
@@ -1475,7 +1514,12 @@ def _worker(job):
                         ins_ = inputs3[: len(inputs3) // 2] + small_inputs("abc ", 4) + small_inputs("ab ", 5)
                         if "r0" in rules:
                             ins_ = ins_ + ["[" + t for t in small_inputs("ab ]", 4)]
-                    eval_grammar(prop, rng, "opt-template:" + kind, gtext, rules, choose_passes(rng, rng.randrange(3)),
+                    passes_ = choose_passes(rng, rng.randrange(3))
+                    if kind == "squash" and rng.random() < 0.35:
+                        # inlining before squashing (what a reversed or repeated pass list does)
+                        passes_ = rng.choice([["inline_silent", "squash_choice"], list(reversed(PASS_NAMES)), list(PASS_NAMES) * 2,
+                                              ["inline_silent", "unroll", "squash_choice"]])
+                    eval_grammar(prop, rng, "opt-template:" + kind, gtext, rules, passes_,
                                  [(st_, t, (0 if prop != "C16" else rng.randint(0, len(t)))) for st_ in starts_ for t in ins_], out)
                     out["stats"]["opt_template_grammars"] += 1
                 except Timeout:
